@@ -814,7 +814,7 @@ func accumulates(v ssa.Value, acc *ssa.Phi) bool {
 }
 
 // quoteEscape: call escapes its operand for use inside shell single quotes
-// (' → '\\'' and nothing else): strings.ReplaceAll, strings.Replace with n <
+// (' → '\\” and nothing else): strings.ReplaceAll, strings.Replace with n <
 // 0, or a strings.Replacer made of that one pair.  Returns the operand.
 func quoteEscape(p *Prog, call *ssa.Call) (arg ssa.Value, ok bool, why string) {
 	name := calleeName(call.Common())
